@@ -60,7 +60,9 @@ func c12Corpus() []cval {
 	for _, t := range []string{"1e400", "-1e400", "1e-400", "123456789012345678901234567890", "0.1000000000000000000000000001", "9223372036854775808", "-9223372036854775809"} {
 		add(cval{name: t + ":num!", kind: "num", v: json.Number(t), use: "var"})
 	}
-	for _, s := range []string{"", "a", "ab", "abc", "b", "A", "a b", "é", "é", "z", "\U0001F600", "�", "aa", "a\x7f", "10", "9", "true", "null"} {
+	for _, s := range []string{"", "a", "ab", "abc", "b", "A", "a b", "é", "é", "z", "\U0001F600", "�", "aa", "a\x7f", "10", "9", "true", "null",
+		// Go strings need not be valid UTF-8 (a document built by the caller): byte order all the same
+		"caf\xe8", "caf\xe9", "caf\ufffd", "\xff", "\x80", "a\xc3"} {
 		add(cval{name: "str:" + strconv.QuoteToASCII(s), kind: "str", v: s, use: "var"})
 	}
 	add(cval{name: "str:lit-ab", kind: "str", lit: `"ab"`, use: "lit"})
